@@ -10,7 +10,7 @@ namespace c05 {
 
 struct Counters
 {
-  long long states = 0, trans = 0, bad = 0;
+  long long states = 0, trans = 0, bad = 0, suppressed = 0;
   uint64_t h = 1469598103934665603ull;
   void obs(uint64_t v)
   {
@@ -25,6 +25,28 @@ inline void viol(Counters &c, const std::string &sig, const std::string &replay,
   if (vr::replaying())
     printf("VIOLATED %s :: [%s] %s\n", sig.c_str(), replay.c_str(), detail.c_str());
 }
+
+// Report limiter: per thread, a (call site, class code) pair is written out at most 48 times; further violations of
+// the same class are only counted (stat violations_not_written_out).  Keeps a run with a wide-spread defect fast and
+// makes sure one defect cannot crowd out the others.
+inline bool admit(int site, int cls)
+{
+  static thread_local unsigned short cnt[1024][64];
+  unsigned short &c = cnt[site & 1023][cls & 63];
+  if (c >= 48)
+    return false;
+  c++;
+  return true;
+}
+#define VIOL(C, cls, sig, replay, detail)       \
+  do {                                          \
+    if (c05::admit(__LINE__, (int)(cls)))       \
+      c05::viol(C, sig, replay, detail);        \
+    else {                                      \
+      (C).bad++;                                \
+      (C).suppressed++;                         \
+    }                                           \
+  } while (0)
 
 inline bool &replaying_flag()  // one flag for all translation units; set by c05::init
 {
@@ -81,11 +103,14 @@ inline bool parallel_items(long long n, int chunk, const F &body, const char *wh
     }));
   for (auto &t : th)
     t.join();
-  long long st = 0, tr = 0;
+  long long st = 0, tr = 0, su = 0;
   for (auto &c : cs) {
     st += c.states;
     tr += c.trans;
+    su += c.suppressed;
   }
+  if (su)
+    vr::stat("violations_not_written_out", su);
   vr::stat("states", st);
   vr::stat("transitions", tr);
   if (stop && done < n) {
